@@ -181,6 +181,18 @@ pub fn specs(thorough: bool) -> Vec<BuildSpec> {
             }
         }
     }
+    // (2f) the size ladder: 2^k − 1, 2^k, 2^k + 1 for every k from 13 to 20 (thorough: 24) in one package
+    for c in [Comp::None, Comp::Gzip(1), Comp::Zstd(1), Comp::Xz(0)] {
+        for large in [false, true] {
+            let mut files = vec![];
+            for k in 13..=(if thorough { 24 } else { 20 }) {
+                for (d, n) in [(-1i64, "m"), (0, "e"), (1, "p")] {
+                    files.push(FileSpec::new(&format!("/ladder/k{:02}{}", k, n), content((k % 2) as u64, ((1i64 << k) + d) as usize)));
+                }
+            }
+            v.push(mk(files, c, large));
+        }
+    }
     // (3) two and three files, every ordered size tuple over a small set
     let small = [0usize, 1, 3, 4, 5, 4096];
     for c in [Comp::None, Comp::Gzip(6), Comp::Zstd(3), Comp::Xz(1)] {
@@ -368,7 +380,7 @@ pub fn run(ctx: &Ctx) -> i32 {
         "built",
         "A",
         &format!(
-            "{} packages built by the library: 0–3 files; sizes {:?}{} (every residue mod 4) × compressible / incompressible content; name lengths 1–5, 255, 4000; every compression type {} × standard and stripped (large-file, forced by the verif hook) layout; all ordered size tuples over {{0,1,3,4,5,4096}} for 2 and 3 files given out of path order; file sets whose paths are suffixes / prefixes / case variants / dot-prefixed twins of one another; sources that are kernel-backed files (stat size 0) or symbolic links; 255 / 256 / 257 / 1000 files (thorough: 65 535 / 65 536 / 65 537) in one directory and in one directory each; names that look like archive markers (TRAILER!!!, 070701); directory / link / ghost / untyped entries built from sources with content; zstd levels 20–22. Oracle: files() yields exactly the given files in path order, bytes identical, length = recorded size, SHA-256 = recorded digest. non-trivial = package with ≥ 1 file",
+            "{} packages built by the library: 0–3 files; sizes {:?}{} (every residue mod 4) × compressible / incompressible content; name lengths 1–5, 255, 4000; every compression type {} × standard and stripped (large-file, forced by the verif hook) layout; all ordered size tuples over {{0,1,3,4,5,4096}} for 2 and 3 files given out of path order; file sets whose paths are suffixes / prefixes / case variants / dot-prefixed twins of one another; sources that are kernel-backed files (stat size 0) or symbolic links; 255 / 256 / 257 / 1000 files (thorough: 65 535 / 65 536 / 65 537) in one directory and in one directory each; a ladder of sizes 2^k − 1, 2^k, 2^k + 1 for k = 13…20 (thorough: …24) in one package per compressor and layout; names that look like archive markers (TRAILER!!!, 070701); directory / link / ghost / untyped entries built from sources with content; zstd levels 20–22. Oracle: files() yields exactly the given files in path order, bytes identical, length = recorded size, SHA-256 = recorded digest. non-trivial = package with ≥ 1 file",
             specs.len(), SIZES, if ctx.thorough() { ", 1 MiB, 5 MiB" } else { "" }, if ctx.thorough() { "and every documented level (gzip 0–9, xz 0–9, zstd 1–22)" } else { "at three levels each" }
         ),
         a,
